@@ -285,3 +285,66 @@ def run_search_algo(pid, name, algo_name, directed, maxn, weights=(1,), variant=
         p = vf.parse_tlc_output(f.read())
     shutil.rmtree(os.path.join(d, "md"), ignore_errors=True)
     return {"cases": "SearchAlgo:" + name, "tlc": p, "tlc_log": log, "wall_s": round(time.time() - t0, 1), "ah": None}
+
+
+def validate_io_records(pid, name, records_path, timeout=3600):
+    """TLC validation of the large-file records (BinTrace.tla / TextTrace.tla), grouped by the
+    constants the specification needs (direction, label width / text codec)."""
+    import re
+    d = vf.fresh_dir(os.path.join(vf.RUN, pid, name + "-iovalidate"))
+    groups = {}
+    with open(records_path) as f:
+        for line in f:
+            r = json.loads(line)
+            key = (r["k"], r["dir"], r.get("w", r.get("codec")))
+            groups.setdefault(key, []).append(line)
+    jobs = []
+    for (k, direc, x), lines in groups.items():
+        gp = os.path.join(d, "%s-%s-%s.ndjson" % (k, "d" if direc else "u", x))
+        with open(gp, "w") as f:
+            f.writelines(lines)
+        jobs.append((k, direc, x, gp, lines))
+
+    def one(job):
+        k, direc, x, gp, lines = job
+        cd = gp + ".d"
+        os.makedirs(cd, exist_ok=True)
+        if k == "bin_big":
+            consts = BinCases("v", direc, int(x), "roundtrip", emit=False).constants()
+            module, inv = "BinTrace.tla", "BigBinOK"
+        else:
+            consts = TextCases("v", direc, x, "roundtrip", emit=False, labels=(0, 1, 2, 3)).constants()
+            module, inv = "TextTrace.tla", "BigTextOK"
+        cfg = vf.write_cfg(os.path.join(cd, module.replace(".tla", ".cfg")), consts, init="TInit", nxt="TNext", invariants=[inv])
+        env = _env()
+        env["RECORDS"] = gp
+        r = subprocess.run(vf.tlc_cmd(module, cfg, os.path.join(cd, "md"), workers=4, heap="6g", extra=["-continue"],
+                                      jvm=["-Xss64m"]),
+                           cwd=vf.SPEC, stdout=subprocess.PIPE, stderr=subprocess.STDOUT, timeout=timeout, env=env)
+        text = r.stdout.decode(errors="replace")
+        with open(os.path.join(cd, "tlc.log"), "w") as f:
+            f.write(text)
+        shutil.rmtree(os.path.join(cd, "md"), ignore_errors=True)
+        bad = sorted({int(m.group(1)) for m in re.finditer(r"Invariant %s is violated.*?idx = (\d+)" % inv, text, re.S)})
+        p = vf.parse_tlc_output(text)
+        fatal = None
+        if not bad and not p["ok"]:
+            fatal = (p["error"] or "TLC did not finish") + " (%s)" % os.path.join(cd, "tlc.log")
+        return {"group": "%s %s %s" % (k, "directed" if direc else "undirected", x), "records": len(lines), "bad": bad,
+                "fatal": fatal, "lines": lines, "distinct": p["distinct"]}
+
+    with concurrent.futures.ThreadPoolExecutor(max_workers=4) as ex:
+        outs = list(ex.map(one, jobs))
+    rejected = []
+    for o in outs:
+        if o["fatal"]:
+            raise vf.Infra("large-file record validation failed to run: " + o["fatal"])
+        for b in o["bad"]:
+            rec = json.loads(o["lines"][b - 1])
+            for big in ("bytes", "lines", "edges", "loaded_edges"):
+                if big in rec and len(rec[big]) > 40:
+                    rec[big] = rec[big][:40] + ["... (%d entries)" % len(rec[big])]
+            rejected.append({"index": b, "group": o["group"], "record": rec})
+    total = sum(o["records"] for o in outs)
+    return {"records": total, "accepted": total - len(rejected), "rejected": rejected,
+            "tlc_states": sum(o["distinct"] for o in outs), "groups": [o["group"] for o in outs]}
